@@ -128,6 +128,41 @@ func scenarios() []scenario {
 		{"acl-write-grant-does-not-read-acl", "get-bucket-acl", "user", func(w *worker, who account) ([]bucketSetup, string) {
 			return []bucketSetup{{Bucket: w.st.Plain, Owner: otherAK, ACL: aclSpec{Kind: "grant-WRITE-caller", Grants: []grant{{who.ak, "WRITE"}}, Syntax: "xml"}}}, ""
 		}},
+		{"vbatch-object-grant-only-k.kv1", "delete-objects+k.kv1", "user", func(w *worker, who account) ([]bucketSetup, string) {
+			b := w.st.Vers
+			return []bucketSetup{{Bucket: b, Owner: otherAK, ACL: private, Policy: pol(allow(who.ak, A("s3:DeleteObject"), b+"/*"))}}, ""
+		}},
+		{"vbatch-object-grant-only-kv1.k", "delete-objects+kv1.k", "userplus", func(w *worker, who account) ([]bucketSetup, string) {
+			b := w.st.Vers
+			return []bucketSetup{{Bucket: b, Owner: otherAK, ACL: private, Policy: pol(allow(who.ak, A("s3:DeleteObject"), b+"/*"))}}, ""
+		}},
+		{"vbatch-version-grant-only-k.kv1", "delete-objects+k.kv1", "userplus", func(w *worker, who account) ([]bucketSetup, string) {
+			b := w.st.Vers
+			return []bucketSetup{{Bucket: b, Owner: otherAK, ACL: private, Policy: pol(allow(who.ak, A("s3:DeleteObjectVersion"), b+"/*"))}}, ""
+		}},
+		{"vbatch-version-grant-only-kv1.k", "delete-objects+kv1.k", "user", func(w *worker, who account) ([]bucketSetup, string) {
+			b := w.st.Vers
+			return []bucketSetup{{Bucket: b, Owner: otherAK, ACL: private, Policy: pol(allow(who.ak, A("s3:DeleteObjectVersion"), b+"/*"))}}, ""
+		}},
+		{"vbatch-version-denied-on-prefix", "delete-objects+mixed", "user", func(w *worker, who account) ([]bucketSetup, string) {
+			b := w.st.Vers
+			return []bucketSetup{{Bucket: b, Owner: otherAK, ACL: private,
+				Policy: pol(allow(who.ak, A("s3:*"), b, b+"/*"), deny(who.ak, A("s3:DeleteObjectVersion"), b+"/p/*"))}}, ""
+		}},
+		{"vbatch-object-denied-on-exact-key", "delete-objects+q.p.qv.pv", "userplus", func(w *worker, who account) ([]bucketSetup, string) {
+			b := w.st.Vers
+			return []bucketSetup{{Bucket: b, Owner: otherAK, ACL: private,
+				Policy: pol(allow(who.ak, A("s3:*"), b, b+"/*"), deny(who.ak, A("s3:DeleteObject"), b+"/"+w.x.QKey))}}, ""
+		}},
+		{"vbatch-version-denied-later-duplicate", "delete-objects+k.kv1.kv2", "user", func(w *worker, who account) ([]bucketSetup, string) {
+			b := w.st.Vers
+			return []bucketSetup{{Bucket: b, Owner: otherAK, ACL: private,
+				Policy: pol(allow(who.ak, A("s3:DeleteObject*"), b+"/*"), deny(who.ak, A("s3:DeleteObjectVersion"), b+"/"+w.st.V1.Key))}}, ""
+		}},
+		{"vbatch-both-granted", "delete-objects+kv2.k.kv1", "user", func(w *worker, who account) ([]bucketSetup, string) {
+			b := w.st.Vers
+			return []bucketSetup{{Bucket: b, Owner: otherAK, ACL: private, Policy: pol(allow(who.ak, A("s3:DeleteObject", "s3:DeleteObjectVersion"), b+"/*"))}}, ""
+		}},
 		{"policy-overrides-open-acl", "get-object", "user", func(w *worker, who account) ([]bucketSetup, string) {
 			b := w.st.Plain
 			return []bucketSetup{{Bucket: b, Owner: otherAK, ACL: permissiveACL(), Policy: pol(allow(otherAK, A("s3:GetObject"), b+"/*"))}}, ""
@@ -138,7 +173,8 @@ func scenarios() []scenario {
 // scenarioCase builds the case of a directed scenario.
 func (w *worker) scenarioCase(sc *scenario, vs map[string]*variant) *kase {
 	v := vs[sc.variant]
-	k := &kase{id: "s/" + sc.name, v: v, a: v.args(w.st), role: sc.role, who: w.acc[sc.role]}
+	k := &kase{id: "s/" + sc.name, v: v, role: sc.role, who: w.acc[sc.role]}
+	w.bind(k)
 	k.setups, k.decoy = sc.build(w, k.who)
 	k.tClass, k.tShape = "acl", "scenario:"+sc.name
 	for _, s := range k.setups {
@@ -161,11 +197,13 @@ func (w *worker) scenarioCase(sc *scenario, vs map[string]*variant) *kase {
 // the exact one, every permission but the needed one - for the target and, for copies, for the source.
 // The reference denies each of them; a call site that evaluates another action / resource / permission
 // (or nothing) allows.
-var sweepKinds = []string{"actions", "resource", "permissions", "source-actions", "source-resource", "source-permissions"}
+var sweepKinds = []string{"actions", "actions-version", "resource", "permissions", "source-actions", "source-resource", "source-permissions"}
 
 func (w *worker) sweepCase(v *variant, kind string, idx int) *kase {
 	e := v.e
-	a := v.args(w.st)
+	k := &kase{v: v}
+	w.bind(k)
+	a := k.a
 	if (e.Level != catalog.LvlBucket && e.Level != catalog.LvlObject) || a.Bucket == w.st.NewBucket || e.Role != "" || e.Action == "" {
 		return nil
 	}
@@ -173,8 +211,11 @@ func (w *worker) sweepCase(v *variant, kind string, idx int) *kase {
 	if src && a.SrcBucket == "" {
 		return nil
 	}
+	if kind == "actions-version" && k.batch == nil {
+		return nil
+	}
 	role := []string{"user", "userplus"}[idx%2]
-	k := &kase{id: "w/" + v.name + "/" + kind, v: v, a: a, role: role, who: w.acc[role], tShape: "sweep:" + kind}
+	k.id, k.role, k.who, k.tShape = "w/"+v.name+"/"+kind, role, w.acc[role], "sweep:"+kind
 	who := k.who.ak
 	b, sb := a.Bucket, a.SrcBucket
 	open := func(bk string) *policy { return pol(allow(who, []string{"s3:*"}, bk, bk+"/*")) }
@@ -215,6 +256,9 @@ func (w *worker) sweepCase(v *variant, kind string, idx int) *kase {
 		if sc != nil {
 			sc.Policy = open(sb)
 		}
+	case "actions-version":
+		// batch entries with a version id need s3:DeleteObjectVersion: everything but that
+		tgt.ACL, tgt.Policy = permissiveACL(), pol(allow(who, allBut("s3:DeleteObjectVersion"), b, b+"/*"))
 	case "resource":
 		tgt.ACL, tgt.Policy = permissiveACL(), pol(allow(who, []string{"s3:*"}, b, b+"/*"), deny(who, []string{"s3:*"}, exact))
 		if sc != nil {
